@@ -12,7 +12,7 @@ from symfl.core import S, set_mode, sym_array, tf, same, ZB, elements, RFloat
 from symfl.install import install
 from symfl.replay import lit, replay_fn
 
-from .common import rvar, unit, is_nan
+from .common import wf,  rvar, unit, is_nan
 
 PROPERTY = "C10"
 EXPLANATION = ("Fuzzy outputs are enumerated as skeletons (0-4 activations over 1-3 distinct terms with repetitions; term kinds "
@@ -32,7 +32,8 @@ ASSUMPTIONS = ["degrees in [0,1]; constants, coefficients, inputs, term paramete
 STUBS = []
 OB_BUDGET_S = {"quick": 200, "thorough": 1500}
 
-TS_KINDS = ("Constant", "Linear", "Function")
+TS_KINDS = ("Constant", "Linear", "Function", "Singular")
+SINGULAR = "1 / x0"      # a Function term that is infinite at x0 = 0 (and NaN for a NaN input)
 MONO = ("Ramp", "Sigmoid", "Concave", "SShape", "ZShape", "Arc")
 AGGS = (None, "Maximum", "AlgebraicSum", "BoundedSum", "UnboundedSum", "EinsteinSum", "NormalizedSum", "DrasticSum", "HamacherSum", "NilpotentMaximum")
 FORMULA = "2 * x0 - x1 * x1 + x"
@@ -50,7 +51,7 @@ def term_params(kind, j):
     if kind == "Linear":
         P = {"a": rvar(f"a{j}"), "b": rvar(f"b{j}"), "k": rvar(f"k{j}")}
         return P, []
-    if kind == "Function":
+    if kind in ("Function", "Singular"):
         return {}, []
     if kind == "Triangle":
         P = {k: rvar(f"{k}{j}") for k in ("vertex_a", "vertex_b", "vertex_c")}
@@ -67,6 +68,8 @@ def make_term(fl, kind, name, P, engine):
         return fl.Linear(name, [P["a"], P["b"], P["k"]], engine)
     if kind == "Function":
         return fl.Function.create(name, FORMULA, engine)
+    if kind == "Singular":
+        return fl.Function.create(name, SINGULAR, engine)
     if kind == "Triangle":
         return fl.Triangle(name, P["vertex_a"], P["vertex_b"], P["vertex_c"])
     return getattr(fl, kind)(name, *[P[k] for k in tspec.TERMS[kind][0]])
@@ -80,6 +83,8 @@ def py_term(kind, name, P, v, j):
         return f"fl.Linear({name!r}, [{g('a')}, {g('b')}, {g('k')}], engine)"
     if kind == "Function":
         return f"fl.Function.create({name!r}, {FORMULA!r}, engine)"
+    if kind == "Singular":
+        return f"fl.Function.create({name!r}, {SINGULAR!r}, engine)"
     if kind == "Triangle":
         return f"fl.Triangle({name!r}, {g('vertex_a')}, {g('vertex_b')}, {g('vertex_c')})"
     return f"fl.{kind}({name!r}, " + ", ".join(g(k) for k in tspec.TERMS[kind][0]) + ")"
@@ -149,7 +154,7 @@ def expected_kind(kinds_used, explicit):
     return {"TS": "TakagiSugeno", "Tsukamoto": "Tsukamoto", "Other": "Automatic"}[c]
 
 
-def ob_value(defuzz, explicit, kinds, skeleton, agg_name, batch=0, zero_at=None, label=""):
+def ob_value(defuzz, explicit, kinds, skeleton, agg_name, batch=0, zero_at=None, label="", special_inputs=False):
     """skeleton: tuple of term indexes (one per activation).  zero_at: (position, term index) of an extra activation whose
     degree is exactly 0 -- the result must equal the one without it."""
 
@@ -157,8 +162,8 @@ def ob_value(defuzz, explicit, kinds, skeleton, agg_name, batch=0, zero_at=None,
         fl = install()
         set_mode("R")
         B = batch or 1
-        x0, x1 = rvar("x0"), rvar("x1")
-        Ps, pre = [], []
+        x0, x1 = rvar("x0", special=special_inputs), rvar("x1", special=special_inputs)
+        Ps, pre = [], (wf(x0, x1) if special_inputs else [])
         for j, k in enumerate(kinds):
             P, v = term_params(k, j)
             Ps.append(P)
@@ -262,7 +267,7 @@ def ob_value(defuzz, explicit, kinds, skeleton, agg_name, batch=0, zero_at=None,
                 # NaN exactly when the total weight is zero (finite z)
                 for b in range(B):
                     tot = z3.Sum([W[i][b].v for i in range(len(skeleton))])
-                    if kind != "Tsukamoto" or all(kinds[j] not in ("Sigmoid", "Concave") for j in skeleton):
+                    if (kind != "Tsukamoto" or all(kinds[j] not in ("Sigmoid", "Concave") for j in skeleton)) and not special_inputs and "Singular" not in kinds:
                         ob.prove(pre, p, is_nan(ge[b]) == (tot == 0), f"{label}/nan-iff-zero-weight", ins, rp)
                 ob.expect_sat(pre, p, same(ge[0], core.const(12345.0)), f"{label}/twin")
             else:
@@ -346,9 +351,9 @@ def ob_infer(kinds, label):
 def _obligations(tier, seed):
     obs = []
 
-    def add(defuzz, explicit, kinds, skel, agg, batch=0, zero_at=None):
-        nm = f"{defuzz}/{explicit}/{'+'.join(kinds)}/[{','.join(map(str, skel))}]/{agg or 'none'}" + (f"/batch{batch}" if batch else "") + (f"/zero@{zero_at[0]}:t{zero_at[1]}" if zero_at else "")
-        obs.append((nm, ob_value(defuzz, explicit, kinds, skel, agg, batch, zero_at, label=nm)))
+    def add(defuzz, explicit, kinds, skel, agg, batch=0, zero_at=None, special_inputs=False):
+        nm = f"{defuzz}/{explicit}/{'+'.join(kinds)}/[{','.join(map(str, skel))}]/{agg or 'none'}" + (f"/batch{batch}" if batch else "") + (f"/zero@{zero_at[0]}:t{zero_at[1]}" if zero_at else "") + ("/special-inputs" if special_inputs else "")
+        obs.append((nm, ob_value(defuzz, explicit, kinds, skel, agg, batch, zero_at, label=nm, special_inputs=special_inputs)))
 
     defs = ("WeightedAverage", "WeightedSum")
     # 1. Takagi-Sugeno kinds: grouping under every aggregation
@@ -389,6 +394,13 @@ def _obligations(tier, seed):
         add(d, "Automatic", ("Constant", "Constant"), (0, 1), "Maximum", zero_at=(1, 0))
         add(d, "Automatic", ("Ramp", "Ramp"), (0, 1), None, zero_at=(2, 1))
         add(d, "Automatic", ("Sigmoid", "Ramp"), (1,), None, batch=2, zero_at=(0, 0))
+    # 3b. Takagi-Sugeno terms whose value is not finite (1/x0 at x0 = 0; Linear/Function of a NaN or infinite input) next to degree 0
+    for d in defs:
+        add(d, "Automatic", ("Singular", "Constant"), (1,), None, zero_at=(0, 0))
+        add(d, "Automatic", ("Singular", "Constant"), (0, 1), None)
+        add(d, "TakagiSugeno", ("Singular", "Constant"), (0, 1, 0), "Maximum", batch=2)
+        add(d, "Automatic", ("Linear", "Constant"), (1,), None, zero_at=(1, 0), special_inputs=True)
+        add(d, "Automatic", ("Function", "Linear"), (0, 1), None, special_inputs=True)
     # 4. mixed kinds under Automatic
     for d in defs:
         add(d, "Automatic", ("Constant", "Ramp"), (0, 1), None)
